@@ -63,7 +63,9 @@ pub fn load_bdd_bundle(
         ))?;
 
         let bdd_string = read_zipped_file(&mut archive, filename.as_str())?;
-        let bdd = Bdd::from_string(bdd_string.as_str());
+        let bdd = Bdd::read_as_string(&mut bdd_string.as_bytes()).map_err(|e| {
+            format!("File `{filename}` of the archive {archive_path} is not a valid BDD: {e}")
+        })?;
         let set = GraphColoredVertices::new(bdd, symbolic_context);
         loaded_sets.insert(name.to_string(), set);
     }
